@@ -24,13 +24,17 @@ pub enum Kind {
     Deep,
     Mmf,
     CntMem,
+    /// a stateful call in ONE arm of an `if` that is first taken late (state touched lazily)
+    Late,
+    /// the same with another state cell after the conditional one
+    LateMem,
 }
 
 /// Kinds used for generation. `Kind::Gate` (stateful calls in both arms of an `if`) is NOT in this
 /// list: on the pinned tree the VM underflows its state position on such programs (panic with
 /// overflow checks, heap corruption / abort without) even in a fault-free run. That is a crash of
 /// an accepted program (C03/C05 territory, not claimed here) and would only kill workers.
-pub const ALL_KINDS: [Kind; 14] = [
+pub const ALL_KINDS: [Kind; 16] = [
     Kind::Counter,
     Kind::Leaky,
     Kind::Lag2,
@@ -45,6 +49,8 @@ pub const ALL_KINDS: [Kind; 14] = [
     Kind::Deep,
     Kind::Mmf,
     Kind::CntMem,
+    Kind::Late,
+    Kind::LateMem,
 ];
 
 #[derive(Clone, Copy, Debug, PartialEq, Serialize, Deserialize)]
@@ -110,6 +116,8 @@ impl Voice {
             Kind::Deep => "deep".into(),
             Kind::Mmf => "mmf".into(),
             Kind::CntMem => "cntmem".into(),
+            Kind::Late => "late".into(),
+            Kind::LateMem => "latemem".into(),
         };
         base
     }
@@ -134,6 +142,7 @@ impl Voice {
             Kind::EchoMod => vec![x, lit(self.p[0]), lit(self.p[1])],
             Kind::Pair => vec![lit(self.p[0])],
             Kind::Nest | Kind::Deep | Kind::CntMem => vec![lit(self.p[0])],
+            Kind::Late | Kind::LateMem => vec![lit(self.p[0]), lit(self.p[1])],
             Kind::Gate => vec![lit(self.p[0]), lit(self.p[1]), lit(self.p[2])],
             Kind::Comb => vec![x, lit(self.p[0]), lit(self.p[1])],
             Kind::Clk => vec![lit(self.p[0])],
@@ -236,6 +245,20 @@ impl Voice {
                 "mmf".into(),
                 "fn mmf(x){\n  let a = mem(x)\n  let b = mem(a)\n  self * 0.25 + b\n}".into(),
             )],
+            Kind::Late => vec![
+                cnt,
+                (
+                    "late".into(),
+                    "fn late(inc,k){\n  let c = cnt(1.0)\n  if (c > k) { cnt(inc) } else { 0.0 }\n}".into(),
+                ),
+            ],
+            Kind::LateMem => vec![
+                cnt,
+                (
+                    "latemem".into(),
+                    "fn latemem(inc,k){\n  let c = cnt(1.0)\n  let r = if (c > k) { cnt(inc) } else { 0.0 }\n  r + mem(c)\n}".into(),
+                ),
+            ],
             Kind::CntMem => vec![
                 cnt,
                 (
@@ -276,8 +299,8 @@ impl Model {
     pub fn zero(v: &Voice) -> Model {
         let ns = match v.kind {
             Kind::Counter | Kind::Leaky | Kind::Clk => 1,
-            Kind::Lag2 | Kind::Mfb | Kind::Pair | Kind::Nest | Kind::CntMem => 2,
-            Kind::Gate | Kind::Wide | Kind::Deep | Kind::Mmf => 3,
+            Kind::Lag2 | Kind::Mfb | Kind::Pair | Kind::Nest | Kind::CntMem | Kind::Late => 2,
+            Kind::Gate | Kind::Wide | Kind::Deep | Kind::Mmf | Kind::LateMem => 3,
             Kind::Echo => 0,
             Kind::EchoMod | Kind::Comb => 1,
         };
@@ -409,6 +432,27 @@ impl Model {
                 self.s[1] = self.s[0];
                 o
             }
+            Kind::Late => {
+                self.s[0] += 1.0;
+                if self.s[0] > p[1] {
+                    self.s[1] += p[0];
+                    self.s[1]
+                } else {
+                    0.0
+                }
+            }
+            Kind::LateMem => {
+                self.s[0] += 1.0;
+                let r = if self.s[0] > p[1] {
+                    self.s[1] += p[0];
+                    self.s[1]
+                } else {
+                    0.0
+                };
+                let m = self.s[2];
+                self.s[2] = self.s[0];
+                r + m
+            }
         }
     }
 }
@@ -433,6 +477,10 @@ pub fn gen_voice(rng: &mut Rng, id: u32, kind: Kind, n_in: u32, max_delay: u32) 
             p[0] = small(rng)
         }
         Kind::Leaky => p[0] = gain(rng),
+        Kind::Late | Kind::LateMem => {
+            p[0] = small(rng);
+            p[1] = *rng.pick(&[0.0, 1.0, 3.0, 10.0, 40.0, 200.0]);
+        }
         Kind::Echo => p[0] = rng.range(1, (n - 1) as u64) as f64 + if rng.chance(1, 4) { 0.5 } else { 0.0 },
         Kind::EchoMod => {
             // lo + ph stays within [1, n-1]: ph in [0, per-1]
@@ -476,6 +524,10 @@ pub fn tweak_constant(rng: &mut Rng, v: &mut Voice) -> bool {
         }
         Kind::Gate => {
             v.p[2] += 0.25;
+            true
+        }
+        Kind::Late | Kind::LateMem => {
+            v.p[0] += 0.25;
             true
         }
         Kind::Comb => {
